@@ -273,3 +273,10 @@ impl Digest {
         }
     }
 }
+
+// ---------------------------------------------------------------------------
+/// Set for the Miri lane (about four orders of magnitude slower): drivers validate less often there.
+pub static SLOW_LANE: AtomicBool = AtomicBool::new(false);
+pub fn slow_lane() -> bool {
+    SLOW_LANE.load(Ordering::Relaxed)
+}
